@@ -607,3 +607,25 @@ func RandomKey(r *vh.RNG) (u, c, h []byte) {
 		return pub.SerializeUncompressed(), pub.SerializeCompressed(), pub.SerializeHybrid()
 	}
 }
+
+// FindKey draws random keys until pred holds (nil when maxTries is exhausted).
+func FindKey(r *vh.RNG, maxTries int, pred func(u, c, h []byte) bool) (u, c, h []byte) {
+	for i := 0; i < maxTries; i++ {
+		u, c, h = RandomKey(r)
+		if pred(u, c, h) {
+			return
+		}
+	}
+	return nil, nil, nil
+}
+
+// OverCashCharset reports whether every character of the hex form of b is also a CashAddr
+// charset character (no '1', no 'b'): such a string passes the CashAddr character stage.
+func OverCashCharset(b []byte) bool {
+	for _, x := range b {
+		if hi, lo := x>>4, x&15; hi == 1 || hi == 11 || lo == 1 || lo == 11 {
+			return false
+		}
+	}
+	return true
+}
